@@ -12,6 +12,9 @@ import (
 	"go/token"
 	"go/types"
 	"math/big"
+	"os"
+	"regexp"
+	"sort"
 	"strconv"
 	"strings"
 	"unicode"
@@ -39,6 +42,10 @@ type fval struct {
 	// variables live there and stay shared with it, also after that frame has returned)
 	bind []fval
 	heap map[*ssa.Alloc]fval
+	// a function value provided by the folder itself (the yield handed to an iterator by maps.Collect and friends)
+	native func(args []fval) (fval, bool)
+	// a compiled regular expression (regexp.MustCompile of a constant pattern)
+	re *regexp.Regexp
 	// a non-nil error value; errID distinguishes values made by different errors.New / failing library calls (0 = unknown identity)
 	nonNil bool
 	errID  int
@@ -55,7 +62,7 @@ type faddr struct {
 }
 
 func (v fval) known() bool {
-	return v.k != nil || v.fn != nil || v.isNil || v.tuple != nil || v.fields != nil || v.addr != nil || v.cv != nil || v.cvptr != nil || v.iter != nil || v.nonNil
+	return v.native != nil || v.re != nil || v.k != nil || v.fn != nil || v.isNil || v.tuple != nil || v.fields != nil || v.addr != nil || v.cv != nil || v.cvptr != nil || v.iter != nil || v.nonNil
 }
 
 // structFval builds a struct value from a nested path map, e.g. {"Rat.Num": 0}.
@@ -93,11 +100,35 @@ func (v fval) String() string {
 			ss = append(ss, x.String())
 		}
 		return "(" + strings.Join(ss, ", ") + ")"
+	case v.fields != nil:
+		var ks []string
+		for k := range v.fields {
+			ks = append(ks, k)
+		}
+		sort.Strings(ks)
+		var ss []string
+		for _, k := range ks {
+			ss = append(ss, k+":"+v.fields[k].String())
+		}
+		return "{" + strings.Join(ss, ",") + "}"
+	case v.cv != nil:
+		return v.cv.vstr()
+	case v.cvptr != nil:
+		return "&" + v.cvptr.vstr()
+	case v.addr != nil:
+		return "&cell" + strings.Join(v.addr.path, ".")
+	case v.nonNil:
+		return fmt.Sprintf("error#%d", v.errID)
+	case v.re != nil:
+		return "regexp " + v.re.String()
 	}
 	return "⊤"
 }
 
 var top = fval{}
+
+// foldDebugCalls: report every callee that does not fold (CRDCHECK_DEBUG=calls)
+var foldDebugCalls = os.Getenv("CRDCHECK_DEBUG") == "calls"
 
 type folder struct {
 	c     *Ctx
@@ -109,10 +140,22 @@ type folder struct {
 	hook func(in ssa.Instruction, val func(ssa.Value) fval) bool
 	// invoke, when set, gives the result of interface method calls (at any depth); ok=false leaves the result unknown.
 	invoke func(call *ssa.Call, args []fval) (fval, bool)
+	// invokeRecv, when set, is asked first for interface method calls, with the receiver's value
+	invokeRecv func(call *ssa.Call, recv fval, args []fval) (fval, bool)
 	// lib, when set, is asked first for the result of a library call (a stand-in for the environment: a flag's value)
 	lib func(fn *ssa.Function, args []fval) (fval, bool)
 	// dyn, when set, stands in for calls of unknown function values (callbacks), at any depth
 	dyn func(call *ssa.Call, args []fval) (fval, bool)
+	// skipInits: calls of package init functions are no-ops (the importing package's init is being folded)
+	skipInits bool
+	// globalStore, when set, receives the stores into package-level variables (a package initialiser is being folded)
+	globalStore map[*ssa.Global]fval
+	// heap: the memory of the outermost folded call (pointer results point into it; see deref)
+	heap map[*ssa.Alloc]fval
+	// cellType: the types of the cells allocations were given
+	cellType map[*ssa.Alloc]types.Type
+	// maxDepth overrides the default bound on the depth of followed calls
+	maxDepth int
 	// maxSteps overrides the default budget of basic blocks visited
 	maxSteps int
 	// reverseMaps makes ranges over map tables visit the entries in reverse literal order (Go's order is unspecified:
@@ -157,6 +200,9 @@ func (f *folder) foldCallEnv(fn *ssa.Function, args []fval, bind []fval, shared 
 				return r, nil
 			}
 		}
+		if r, ok, err := f.iterTransfer(fn, args); ok {
+			return r, err
+		}
 		return libTransfer(fn, args)
 	}
 	if len(fn.Blocks) == 0 {
@@ -164,13 +210,16 @@ func (f *folder) foldCallEnv(fn *ssa.Function, args []fval, bind []fval, shared 
 	}
 	f.depth++
 	defer func() { f.depth-- }()
-	if f.depth > 6 {
+	if f.depth > max(6, f.maxDepth) {
 		return top, fmt.Errorf("call depth exceeded at %s", fname(fn))
 	}
 	env := map[ssa.Value]fval{}
 	mem := map[*ssa.Alloc]fval{}
 	if shared != nil {
 		mem = shared
+	}
+	if f.depth == 1 {
+		f.heap = mem
 	}
 	for i, p := range fn.Params {
 		if i < len(args) {
@@ -268,16 +317,27 @@ func (f *folder) evalInstr(env map[ssa.Value]fval, mem map[*ssa.Alloc]fval, in s
 	case *ssa.BinOp:
 		env[x] = foldBinOp(x.Op, f.val(env, x.X), f.val(env, x.Y), x.Type())
 	case *ssa.Alloc:
-		env[x] = fval{addr: &faddr{base: x}}
+		// every execution of an allocation makes an object of its own (one memory serves all frames of a fold, and what
+		// earlier rounds of a loop or earlier calls made may still be referenced)
+		cell := new(ssa.Alloc)
+		if f.cellType == nil {
+			f.cellType = map[*ssa.Alloc]types.Type{}
+		}
+		f.cellType[cell] = x.Type()
+		env[x] = fval{addr: &faddr{base: cell}}
 		// a fresh variable holds the zero value of its type
 		if pt, ok := x.Type().Underlying().(*types.Pointer); ok {
 			if z := zeroFval(pt.Elem()); z.known() {
-				mem[x] = z
+				mem[cell] = z
 			} else {
-				delete(mem, x)
+				delete(mem, cell)
 			}
 		}
 	case *ssa.Store:
+		if g, ok := x.Addr.(*ssa.Global); ok && f.globalStore != nil {
+			f.globalStore[g] = f.val(env, x.Val)
+			return
+		}
 		if a := f.val(env, x.Addr); a.addr != nil && len(a.addr.path) == 0 {
 			mem[a.addr.base] = f.val(env, x.Val)
 		} else if a.addr != nil {
@@ -317,6 +377,16 @@ func (f *folder) evalInstr(env map[ssa.Value]fval, mem map[*ssa.Alloc]fval, in s
 	case *ssa.UnOp:
 		if x.Op == token.MUL {
 			if g, ok := x.X.(*ssa.Global); ok {
+				if f.globalStore != nil {
+					if v, stored := f.globalStore[g]; stored {
+						env[x] = v
+						return
+					}
+					if g.Name() == "init$guard" {
+						env[x] = fval{k: constant.MakeBool(false), t: types.Typ[types.Bool]}
+						return
+					}
+				}
 				env[x] = f.c.globalTable(g)
 				return
 			}
@@ -403,6 +473,11 @@ func (f *folder) evalInstr(env map[ssa.Value]fval, mem map[*ssa.Alloc]fval, in s
 		}
 		if bi, ok := x.Call.Value.(*ssa.Builtin); ok && bi.Name() == "len" && len(x.Call.Args) == 1 {
 			a := f.val(env, x.Call.Args[0])
+			if a.isNil {
+				// a nil slice or map has no elements
+				env[x] = fval{k: constant.MakeInt64(0), t: x.Type()}
+				return
+			}
 			switch cv := a.cv.(type) {
 			case *ListV:
 				env[x] = fval{k: constant.MakeInt64(int64(len(cv.Elems))), t: x.Type()}
@@ -418,6 +493,16 @@ func (f *folder) evalInstr(env map[ssa.Value]fval, mem map[*ssa.Alloc]fval, in s
 			env[x] = top
 			return
 		}
+		if x.Call.IsInvoke() && f.invokeRecv != nil {
+			var as []fval
+			for _, a := range x.Call.Args {
+				as = append(as, f.val(env, a))
+			}
+			if r, ok := f.invokeRecv(x, f.val(env, x.Call.Value), as); ok {
+				env[x] = r
+				return
+			}
+		}
 		if x.Call.IsInvoke() && f.invoke != nil {
 			var as []fval
 			for _, a := range x.Call.Args {
@@ -431,6 +516,9 @@ func (f *folder) evalInstr(env map[ssa.Value]fval, mem map[*ssa.Alloc]fval, in s
 			return
 		}
 		callee := staticCallee(&x.Call)
+		if f.skipInits && callee != nil && callee.Name() == "init" && callee.Synthetic != "" && len(x.Call.Args) == 0 {
+			return
+		}
 		var bind []fval
 		var heap map[*ssa.Alloc]fval
 		if !x.Call.IsInvoke() {
@@ -442,6 +530,20 @@ func (f *folder) evalInstr(env map[ssa.Value]fval, mem map[*ssa.Alloc]fval, in s
 				if callee == fv.fn {
 					bind, heap = fv.bind, fv.heap
 				}
+			}
+		}
+		if callee == nil && !x.Call.IsInvoke() {
+			if fv := f.val(env, x.Call.Value); fv.native != nil {
+				var as []fval
+				for _, a := range x.Call.Args {
+					as = append(as, f.val(env, a))
+				}
+				if r, ok := fv.native(as); ok {
+					env[x] = r
+				} else {
+					env[x] = top
+				}
+				return
 			}
 		}
 		if callee == nil {
@@ -460,12 +562,12 @@ func (f *folder) evalInstr(env map[ssa.Value]fval, mem map[*ssa.Alloc]fval, in s
 			return
 		}
 		var as []fval
+		var ptrArgs []*ssa.Alloc
 		for _, a := range x.Call.Args {
 			av := f.val(env, a)
 			as = append(as, av)
 			if av.addr != nil {
-				// the callee may write through the pointer
-				defer delete(mem, av.addr.base)
+				ptrArgs = append(ptrArgs, av.addr.base)
 			}
 		}
 		// bound-method thunk: free var is the receiver (unknown) — methods here never depend on receiver state we track
@@ -479,15 +581,22 @@ func (f *folder) evalInstr(env map[ssa.Value]fval, mem map[*ssa.Alloc]fval, in s
 			as = append([]fval{recv}, as...)
 			bind = nil
 		}
-		var shared map[*ssa.Alloc]fval
-		if bind != nil {
-			shared = mem
-			if heap != nil {
-				shared = heap
-			}
+		// the callee works on the same memory: what it is handed by pointer it can read and write
+		shared := mem
+		if bind != nil && heap != nil {
+			shared = heap
 		}
 		r, err := f.foldCallEnv(target, as, bind, shared)
+		if err != nil || !f.c.isRepoFunc(target) {
+			// not followed to its end (or a library function): whatever it was handed by pointer is unknown now
+			for _, b := range ptrArgs {
+				delete(mem, b)
+			}
+		}
 		if err != nil {
+			if foldDebugCalls {
+				fmt.Fprintf(os.Stderr, "  fold: call of %s fails: %v\n", fname(target), err)
+			}
 			env[x] = top
 		} else {
 			env[x] = r
@@ -511,7 +620,13 @@ func (f *folder) evalInstr(env map[ssa.Value]fval, mem map[*ssa.Alloc]fval, in s
 		}
 		kv, ok1 := toVal(f.val(env, x.Key), mt.Key(), f.c)
 		vv, ok2 := toVal(f.val(env, x.Value), mt.Elem(), f.c)
+		if ok2 && f.holdsPoisoned(vv, 0) {
+			ok2 = false
+		}
 		if !ok1 || !ok2 {
+			if os.Getenv("CRDCHECK_DEBUG") != "" {
+				fmt.Fprintf(os.Stderr, "fold: map poisoned in %s: key ok=%v %s, value ok=%v %s\n", fname(x.Parent()), ok1, f.val(env, x.Key).String(), ok2, f.val(env, x.Value).String())
+			}
 			f.poisoned[mv] = true
 			return
 		}
@@ -557,8 +672,44 @@ func (f *folder) evalInstr(env map[ssa.Value]fval, mem map[*ssa.Alloc]fval, in s
 			env[x] = top
 			return
 		}
+		// a byte of a known string
+		if sv, iv := f.val(env, x.X), f.val(env, x.Index); !x.CommaOk && sv.k != nil && sv.k.Kind() == constant.String && iv.k != nil && iv.k.Kind() == constant.Int {
+			str := constant.StringVal(sv.k)
+			if i, ok := constant.Int64Val(iv.k); ok && 0 <= i && i < int64(len(str)) {
+				env[x] = fval{k: constant.MakeInt64(int64(str[i])), t: x.Type()}
+				return
+			}
+			env[x] = top
+			return
+		}
 		env[x] = foldLookup(x, f.val(env, x.X), f.val(env, x.Index))
 	case *ssa.Slice:
+		// a substring of a known string with known bounds
+		if sv := f.val(env, x.X); sv.k != nil && sv.k.Kind() == constant.String && x.Max == nil {
+			str := constant.StringVal(sv.k)
+			lo, hi := int64(0), int64(len(str))
+			okB := true
+			if x.Low != nil {
+				if v := f.val(env, x.Low); v.k != nil && v.k.Kind() == constant.Int {
+					lo, _ = constant.Int64Val(v.k)
+				} else {
+					okB = false
+				}
+			}
+			if x.High != nil {
+				if v := f.val(env, x.High); v.k != nil && v.k.Kind() == constant.Int {
+					hi, _ = constant.Int64Val(v.k)
+				} else {
+					okB = false
+				}
+			}
+			if okB && 0 <= lo && lo <= hi && hi <= int64(len(str)) {
+				env[x] = fval{k: constant.MakeString(str[lo:hi]), t: x.Type()}
+			} else {
+				env[x] = top
+			}
+			return
+		}
 		// a sub-slice of an immutable list with constant bounds
 		if l, ok := f.val(env, x.X).cv.(*ListV); ok && x.Max == nil {
 			lo, hi := int64(0), int64(len(l.Elems))
@@ -586,11 +737,19 @@ func (f *folder) evalInstr(env map[ssa.Value]fval, mem map[*ssa.Alloc]fval, in s
 		}
 		// the whole of a local array whose elements are all known constants (a variadic argument list): an immutable list
 		if a := f.val(env, x.X); a.addr != nil && len(a.addr.path) == 0 && x.Low == nil && x.High == nil && x.Max == nil {
-			if pt, ok := a.addr.base.Type().Underlying().(*types.Pointer); ok {
+			bt := f.cellType[a.addr.base]
+			if bt == nil && a.addr.base.Block() != nil {
+				bt = a.addr.base.Type()
+			}
+			if bt == nil {
+				env[x] = top
+				return
+			}
+			if pt, ok := bt.Underlying().(*types.Pointer); ok {
 				if at, ok := pt.Elem().Underlying().(*types.Array); ok {
 					cur := mem[a.addr.base]
 					lv := &ListV{T: x.Type()}
-					okAll := cur.fields != nil
+					okAll := cur.fields != nil || at.Len() == 0
 					for i := int64(0); okAll && i < at.Len(); i++ {
 						e, has := cur.fields[fmt.Sprintf("#%d", i)]
 						if !has {
@@ -639,6 +798,16 @@ func (f *folder) evalInstr(env map[ssa.Value]fval, mem map[*ssa.Alloc]fval, in s
 		}
 		env[x] = top
 	case *ssa.Index:
+		// a byte of a known string
+		if sv, iv := f.val(env, x.X), f.val(env, x.Index); sv.k != nil && sv.k.Kind() == constant.String && iv.k != nil && iv.k.Kind() == constant.Int {
+			str := constant.StringVal(sv.k)
+			if i, ok := constant.Int64Val(iv.k); ok && 0 <= i && i < int64(len(str)) {
+				env[x] = fval{k: constant.MakeInt64(int64(str[i])), t: x.Type()}
+			} else {
+				env[x] = top
+			}
+			return
+		}
 		// an element of an array value held as "#i" fields
 		if av := f.val(env, x.X); av.fields != nil {
 			if iv := f.val(env, x.Index); iv.k != nil && iv.k.Kind() == constant.Int {
@@ -688,6 +857,14 @@ func (f *folder) val(env map[ssa.Value]fval, v ssa.Value) fval {
 			if raw, ok := f.c.globalRaw[x]; ok && raw != nil {
 				return fval{cvptr: raw}
 			}
+			// a struct value made by an initialiser call: its address reads as that (immutable) value
+			if gv.fields != nil {
+				if pt, ok := x.Type().Underlying().(*types.Pointer); ok {
+					if sv, ok := toVal(gv, pt.Elem(), f.c); ok {
+						return fval{cvptr: sv}
+					}
+				}
+			}
 		}
 		return top
 	}
@@ -701,7 +878,8 @@ func foldBinOp(op token.Token, a, b fval, t types.Type) fval {
 	// comparisons of a value known to be nil / known to be non-nil with nil
 	if (op == token.EQL || op == token.NEQ) && a.k == nil && b.k == nil {
 		an, bn := a.isNil, b.isNil
-		ann, bnn := a.nonNil, b.nonNil
+		// a known address (of a cell, of a table value) or a known function is not nil
+		ann, bnn := a.nonNil || a.cvptr != nil || a.addr != nil || a.fn != nil, b.nonNil || b.cvptr != nil || b.addr != nil || b.fn != nil
 		if (an || ann) && (bn || bnn) && (an || bn) {
 			eq := an && bn
 			if op == token.NEQ {
@@ -828,6 +1006,72 @@ func libTransfer(fn *ssa.Function, args []fval) (fval, error) {
 		if r, ok := argInt(1); ok && r < 0 {
 			return fval{k: constant.MakeInt64(-1), t: types.Typ[types.Int]}, nil
 		}
+		if r, ok := argInt(1); ok && len(args) == 2 && args[0].k != nil && args[0].k.Kind() == constant.String && r <= unicode.MaxRune {
+			return fval{k: constant.MakeInt64(int64(strings.IndexRune(constant.StringVal(args[0].k), rune(r)))), t: types.Typ[types.Int]}, nil
+		}
+	case "strings.IndexByte", "strings.LastIndexByte":
+		// doc: the index of the first (last) instance of the byte c in s, or -1
+		if b, ok := argInt(1); ok && len(args) == 2 && args[0].k != nil && args[0].k.Kind() == constant.String && 0 <= b && b <= 255 {
+			r := strings.IndexByte(constant.StringVal(args[0].k), byte(b))
+			if name == "strings.LastIndexByte" {
+				r = strings.LastIndexByte(constant.StringVal(args[0].k), byte(b))
+			}
+			return fval{k: constant.MakeInt64(int64(r)), t: types.Typ[types.Int]}, nil
+		}
+	case "strings.Index", "strings.LastIndex", "strings.IndexAny", "strings.Count":
+		if a, b, ok := twoStrings(args); ok {
+			var r int
+			switch name {
+			case "strings.Index":
+				r = strings.Index(a, b)
+			case "strings.LastIndex":
+				r = strings.LastIndex(a, b)
+			case "strings.IndexAny":
+				r = strings.IndexAny(a, b)
+			default:
+				r = strings.Count(a, b)
+			}
+			return fval{k: constant.MakeInt64(int64(r)), t: types.Typ[types.Int]}, nil
+		}
+	case "strings.CutPrefix", "strings.CutSuffix":
+		if a, b, ok := twoStrings(args); ok {
+			var rest string
+			var found bool
+			if name == "strings.CutPrefix" {
+				rest, found = strings.CutPrefix(a, b)
+			} else {
+				rest, found = strings.CutSuffix(a, b)
+			}
+			return fval{tuple: []fval{{k: constant.MakeString(rest), t: types.Typ[types.String]}, {k: constant.MakeBool(found), t: boolT}}}, nil
+		}
+	case "strings.Cut":
+		if a, b, ok := twoStrings(args); ok {
+			before, after, found := strings.Cut(a, b)
+			return fval{tuple: []fval{{k: constant.MakeString(before), t: types.Typ[types.String]}, {k: constant.MakeString(after), t: types.Typ[types.String]}, {k: constant.MakeBool(found), t: boolT}}}, nil
+		}
+	case "strings.ContainsAny", "strings.EqualFold":
+		if a, b, ok := twoStrings(args); ok {
+			r := strings.ContainsAny(a, b)
+			if name == "strings.EqualFold" {
+				r = strings.EqualFold(a, b)
+			}
+			return fval{k: constant.MakeBool(r), t: boolT}, nil
+		}
+	case "strings.ToUpper", "strings.ToLower", "strings.TrimSpace", "strings.Title":
+		if len(args) == 1 && args[0].k != nil && args[0].k.Kind() == constant.String {
+			a := constant.StringVal(args[0].k)
+			switch name {
+			case "strings.ToUpper":
+				a = strings.ToUpper(a)
+			case "strings.ToLower":
+				a = strings.ToLower(a)
+			case "strings.TrimSpace":
+				a = strings.TrimSpace(a)
+			default:
+				return top, fmt.Errorf("no transfer function for %s", name)
+			}
+			return fval{k: constant.MakeString(a), t: types.Typ[types.String]}, nil
+		}
 	case "errors.New":
 		nextErrID++
 		return fval{nonNil: true, errID: nextErrID}, nil
@@ -948,6 +1192,43 @@ func libTransfer(fn *ssa.Function, args []fval) (fval, error) {
 				}
 			}
 		}
+	case "regexp.MustCompile":
+		// doc: MustCompile parses a regular expression and returns a Regexp that can be used to match against text; it panics if the expression cannot be parsed
+		if len(args) == 1 && args[0].k != nil && args[0].k.Kind() == constant.String {
+			if re, err := regexp.Compile(constant.StringVal(args[0].k)); err == nil {
+				return fval{re: re}, nil
+			}
+		}
+	case "regexp.Regexp.FindAllStringSubmatch", "regexp.Regexp.FindStringSubmatch", "regexp.Regexp.MatchString":
+		// matching a known pattern against a known text: decided by the regexp package itself (the documented semantics)
+		if len(args) >= 2 && args[0].re != nil && args[1].k != nil && args[1].k.Kind() == constant.String {
+			text := constant.StringVal(args[1].k)
+			strs := func(ss []string) *ListV {
+				l := &ListV{T: types.NewSlice(types.Typ[types.String])}
+				for _, x := range ss {
+					l.Elems = append(l.Elems, &CVal{V: constant.MakeString(x), T: types.Typ[types.String]})
+				}
+				return l
+			}
+			switch name {
+			case "regexp.Regexp.MatchString":
+				return fval{k: constant.MakeBool(args[0].re.MatchString(text)), t: boolT}, nil
+			case "regexp.Regexp.FindStringSubmatch":
+				m := args[0].re.FindStringSubmatch(text)
+				if m == nil {
+					return fval{cv: &ListV{T: types.NewSlice(types.Typ[types.String])}, isNil: false}, nil
+				}
+				return fval{cv: strs(m)}, nil
+			default:
+				if n, ok := argInt(2); ok {
+					out := &ListV{T: types.NewSlice(types.NewSlice(types.Typ[types.String]))}
+					for _, m := range args[0].re.FindAllStringSubmatch(text, int(n)) {
+						out.Elems = append(out.Elems, strs(m))
+					}
+					return fval{cv: out}, nil
+				}
+			}
+		}
 	case "strconv.FormatUint", "strconv.FormatInt":
 		// doc: the string representation of i in the given base; base 10 modelled
 		if len(args) == 2 && args[0].k != nil && args[0].k.Kind() == constant.Int {
@@ -980,6 +1261,13 @@ func libTransfer(fn *ssa.Function, args []fval) (fval, error) {
 			}
 		}
 	}
+	if foldDebugCalls {
+		var as []string
+		for _, a := range args {
+			as = append(as, a.String())
+		}
+		fmt.Fprintf(os.Stderr, "  no transfer: %s(%s)\n", name, strings.Join(as, ", "))
+	}
 	return top, fmt.Errorf("no transfer function for %s with these arguments", name)
 }
 
@@ -996,7 +1284,12 @@ func fromVal(v Val) fval {
 		return fval{fields: fs, t: x.T}
 	case *MapV, *ListV:
 		return fval{cv: v}
+	case *PtrV:
+		return fval{cvptr: x.Elem}
 	case *FuncV:
+		if x.F == nil {
+			return fval{fn: x.Fn, t: x.Fn.Signature}
+		}
 		return fval{fn: x.Fn, t: x.F.Type()}
 	}
 	return top
@@ -1165,6 +1458,18 @@ func (c *Ctx) globalTable(g *ssa.Global) fval {
 			}
 			c.globalRaw[g] = r.cv
 			return r
+		}
+		// any other initialiser code (a loop over seeds, an immediately called function, several variables from one
+		// call): what the package's init function stores into the variable when it is folded as a whole
+		if r, ok := c.foldPkgInit(g.Pkg)[g]; ok && r.known() {
+			if mv, isMap := r.cv.(*MapV); !isMap || !c.initPoisoned[mv] {
+				c.globalTabs[g] = r
+				if c.globalRaw == nil {
+					c.globalRaw = map[*ssa.Global]Val{}
+				}
+				c.globalRaw[g] = r.cv
+				return r
+			}
 		}
 		return top
 	}
@@ -1367,6 +1672,17 @@ func toVal(v fval, t types.Type, c *Ctx) (Val, bool) {
 	if v.k != nil {
 		return &CVal{V: v.k, T: t, c: c}, true
 	}
+	if v.cv != nil {
+		// a table value inside a table (a set of names in a signature row)
+		return v.cv, true
+	}
+	if v.fn != nil && len(v.bind) == 0 {
+		// a function in a table (a function literal of the initialiser that captures nothing, or a named function)
+		if _, isSig := t.Underlying().(*types.Signature); isSig {
+			f, _ := v.fn.Object().(*types.Func)
+			return &FuncV{F: f, Fn: v.fn}, true
+		}
+	}
 	if v.fields != nil {
 		st, ok := t.Underlying().(*types.Struct)
 		if !ok {
@@ -1447,4 +1763,216 @@ func hasPrinterMethod(t types.Type) bool {
 		}
 	}
 	return false
+}
+
+// deref: what a pointer result of the last outermost fold points to (⊤ when it is not a known address).
+func (f *folder) deref(v fval) fval {
+	if v.cvptr != nil {
+		return fromVal(v.cvptr)
+	}
+	if v.addr == nil || f.heap == nil {
+		return top
+	}
+	cur, ok := f.heap[v.addr.base]
+	for _, part := range v.addr.path {
+		if !ok || cur.fields == nil {
+			return top
+		}
+		cur, ok = cur.fields[part]
+	}
+	if !ok {
+		return top
+	}
+	return cur
+}
+
+// foldPkgInit folds the package's init function as a whole and returns what it stores into each package-level variable
+// (⊤ where the initialiser does not fold). Calls of other packages' init functions are skipped; their variables are read
+// through globalTable. The result is cached; while it is being computed, variables of the same package read as ⊤.
+func (c *Ctx) foldPkgInit(pkg *ssa.Package) map[*ssa.Global]fval {
+	if pkg == nil {
+		return nil
+	}
+	if c.pkgInits == nil {
+		c.pkgInits = map[*ssa.Package]map[*ssa.Global]fval{}
+		c.initPoisoned = map[*MapV]bool{}
+	}
+	if r, ok := c.pkgInits[pkg]; ok {
+		return r
+	}
+	c.pkgInits[pkg] = map[*ssa.Global]fval{} // in progress
+	initFn := pkg.Func("init")
+	if initFn == nil || len(initFn.Blocks) == 0 {
+		return nil
+	}
+	fd := c.newFolder()
+	fd.maxSteps = 400000
+	fd.globalStore = map[*ssa.Global]fval{}
+	fd.skipInits = true
+	fd.foldCall(initFn, nil)
+	for mv := range fd.poisoned {
+		c.initPoisoned[mv] = true
+	}
+	c.pkgInits[pkg] = fd.globalStore
+	if os.Getenv("CRDCHECK_DEBUG") != "" {
+		var names []string
+		for g, v := range fd.globalStore {
+			st := "known"
+			if !v.known() {
+				st = "unknown"
+			} else if mv, ok := v.cv.(*MapV); ok && fd.poisoned[mv] {
+				st = "poisoned map"
+			}
+			names = append(names, g.Name()+"="+st)
+		}
+		sort.Strings(names)
+		fmt.Fprintf(os.Stderr, "foldPkgInit %s: %v\n", pkg.Pkg.Path(), names)
+	}
+	return fd.globalStore
+}
+
+// holdsPoisoned: the table value contains (at any depth) a map that received something unknown.
+func (f *folder) holdsPoisoned(v Val, depth int) bool {
+	if depth > 6 {
+		return true
+	}
+	switch x := v.(type) {
+	case *MapV:
+		if f.poisoned[x] {
+			return true
+		}
+		for _, e := range x.Entries {
+			if f.holdsPoisoned(e.K, depth+1) || f.holdsPoisoned(e.V, depth+1) {
+				return true
+			}
+		}
+	case *ListV:
+		for _, e := range x.Elems {
+			if f.holdsPoisoned(e, depth+1) {
+				return true
+			}
+		}
+	case *StructV:
+		for _, e := range x.Fields {
+			if f.holdsPoisoned(e, depth+1) {
+				return true
+			}
+		}
+	}
+	return false
+}
+
+// iterTransfer: the standard library's collectors of iterators (maps.Collect, slices.Collect, slices.AppendSeq) applied
+// to an iterator of the repository: the iterator function is folded with a yield of the folder's own that records what
+// it is handed, in order. doc: Collect collects key-value pairs from seq into a new map (a later pair with the same
+// key replaces the earlier one); slices.Collect collects values into a new slice; AppendSeq appends them to s.
+func (f *folder) iterTransfer(fn *ssa.Function, args []fval) (fval, bool, error) {
+	name := fname(fn)
+	if i := strings.Index(name, "["); i >= 0 {
+		name = name[:i]
+	}
+	boolT := types.Typ[types.Bool]
+	yes := fval{k: constant.MakeBool(true), t: boolT}
+	run := func(seq fval, yield fval) error {
+		if seq.fn == nil {
+			return fmt.Errorf("%s: the iterator is not a known function", name)
+		}
+		shared := f.heap
+		if seq.bind != nil && seq.heap != nil {
+			shared = seq.heap
+		}
+		_, err := f.foldCallEnv(seq.fn, []fval{yield}, seq.bind, shared)
+		return err
+	}
+	switch name {
+	case "maps.Collect":
+		if len(args) != 1 || fn.Signature.Results().Len() != 1 {
+			return top, false, nil
+		}
+		mt, ok := fn.Signature.Results().At(0).Type().Underlying().(*types.Map)
+		if !ok {
+			return top, false, nil
+		}
+		mv := &MapV{T: fn.Signature.Results().At(0).Type()}
+		if f.freshMaps == nil {
+			f.freshMaps, f.poisoned = map[*MapV]bool{}, map[*MapV]bool{}
+		}
+		f.freshMaps[mv] = true
+		bad := false
+		yield := fval{native: func(as []fval) (fval, bool) {
+			if len(as) != 2 {
+				bad = true
+				return top, false
+			}
+			kv, ok1 := toVal(as[0], mt.Key(), f.c)
+			vv, ok2 := toVal(as[1], mt.Elem(), f.c)
+			if !ok1 || !ok2 {
+				bad = true
+				return top, false
+			}
+			for i, e := range mv.Entries {
+				if e.K.vstr() == kv.vstr() {
+					mv.Entries[i].V = vv
+					return yes, true
+				}
+			}
+			mv.Entries = append(mv.Entries, KV{K: kv, V: vv})
+			return yes, true
+		}}
+		if err := run(args[0], yield); err != nil {
+			return top, true, err
+		}
+		if bad {
+			return top, true, fmt.Errorf("maps.Collect: a pair that is not known")
+		}
+		return fval{cv: mv, t: mv.T}, true, nil
+	case "slices.Collect", "slices.AppendSeq":
+		seqArg := 0
+		nl := &ListV{T: fn.Signature.Results().At(0).Type()}
+		if name == "slices.AppendSeq" {
+			if len(args) != 2 {
+				return top, false, nil
+			}
+			seqArg = 1
+			switch {
+			case args[0].isNil:
+			case args[0].cv != nil:
+				l, ok := args[0].cv.(*ListV)
+				if !ok {
+					return top, false, nil
+				}
+				nl.Elems = append(nl.Elems, l.Elems...)
+			default:
+				return top, false, nil
+			}
+		} else if len(args) != 1 {
+			return top, false, nil
+		}
+		st, ok := nl.T.Underlying().(*types.Slice)
+		if !ok {
+			return top, false, nil
+		}
+		bad := false
+		yield := fval{native: func(as []fval) (fval, bool) {
+			if len(as) != 1 {
+				bad = true
+				return top, false
+			}
+			ev, ok := toVal(as[0], st.Elem(), f.c)
+			if !ok {
+				bad = true
+				return top, false
+			}
+			nl.Elems = append(nl.Elems, ev)
+			return yes, true
+		}}
+		if err := run(args[seqArg], yield); err != nil {
+			return top, true, err
+		}
+		if bad {
+			return top, true, fmt.Errorf("%s: an element that is not known", name)
+		}
+		return fval{cv: nl, t: nl.T}, true, nil
+	}
+	return top, false, nil
 }
